@@ -160,6 +160,11 @@ fn check_rgb_labels(acc: &mut Acc) {
 // ---------------------------------------------------------------------------------------------
 // (b) labels match content
 
+/// Fully saturated colours: used only where the input is already gamma-encoded RGB in the target
+/// space (Rgb -> Yuv), i.e. in gamut by construction. Linear-light inputs keep the moderate palette
+/// below: a pure BT.709 primary is out of gamut in some target primaries, where the transfer curves
+/// clip negative values and the round trip is legitimately lossy (C09 is about in-gamut images).
+const PALETTE_SAT: [[f32; 3]; 6] = [[1.0, 0.0, 0.0], [0.0, 1.0, 0.0], [0.0, 0.0, 1.0], [1.0, 1.0, 0.0], [0.0, 1.0, 1.0], [1.0, 0.0, 1.0]];
 const PALETTE: [[f32; 3]; 8] = [
     [0.2, 0.2, 0.2],
     [0.8, 0.1, 0.1],
@@ -173,6 +178,9 @@ const PALETTE: [[f32; 3]; 8] = [
 
 fn image(w: usize, h: usize) -> Vec<[f32; 3]> {
     (0..w * h).map(|i| PALETTE[(i % w + i / w) % 8]).collect()
+}
+fn image_sat(w: usize, h: usize) -> Vec<[f32; 3]> {
+    (0..w * h).map(|i| { let k = (i % w + i / w) % 14; if k < 6 { PALETTE_SAT[k] } else { PALETTE[k - 6] } }).collect()
 }
 
 #[derive(Clone, Copy, Debug, PartialEq)]
@@ -190,7 +198,7 @@ fn planes_of<T: Pixel>(y: &Yuv<T>) -> [Vec<u16>; 3] {
 /// succeeds, decode with the stored config and compare with the input in code units.
 fn content_yuv<T: Pixel>(acc: &mut Acc, idx: u64, src: Src, w: usize, h: usize, cfg: YuvConfig) {
     let case = || json!({"kind":"c15content","src":format!("{src:?}"),"w":w,"h":h,"cfg":cfg_json(&cfg),"u16":std::mem::size_of::<T>()==2});
-    let data = image(w, h);
+    let data = if src == Src::Rgb { image_sat(w, h) } else { image(w, h) };
     acc.states += 1;
     acc.transitions += 1;
     // the input expressed as linear RGB (what "the input" means for every source kind)
